@@ -127,60 +127,50 @@ theorem bind_ok {α β} {x : PR α} {f : α → List Char → PR β} {b r} (h : 
 theorem andThen_ok {α β} {p : P α} {f : α → P β} {s b r} (h : andThen p f s = .ok b r) :
     ∃ a r1, p s = .ok a r1 ∧ f a r1 = .ok b r := bind_ok h
 
-/-- the values `IntConstant::parse` produces are never `i64::MIN`, so `-d.0` cannot overflow -/
-theorem intConstant_range : ∀ d s v r, IntConstant.parse d s = .ok v r → -i64Max ≤ v ∧ v ≤ i64Max
-  | 0, _, _, _, h => by simp [IntConstant.parse] at h
-  | d + 1, s, v, r, h => by
-    unfold IntConstant.parse at h
-    rcases alt_cons_ok h with h1 | ⟨_, h⟩
-    · obtain ⟨_, s1, _, h2⟩ := andThen_ok h1
-      obtain ⟨v', r', h3, h4⟩ := bind_ok (x := IntConstant.parse d s1) h2
-      have hr := intConstant_range d s1 v' r' h3
-      unfold negI64 at h4
-      by_cases hv : v' = i64Min
-      · simp [hv] at h4
-      · simp only [hv, if_false, PR.ok.injEq] at h4
-        obtain ⟨rfl, _⟩ := h4
-        unfold i64Max at *; omega
-    rcases alt_cons_ok h with h1 | ⟨_, h⟩
-    · obtain ⟨_, s1, _, h2⟩ := andThen_ok h1
-      obtain ⟨ds, r', _, h4⟩ := bind_ok (x := hexDigit1 s1) h2
-      unfold parseI64Hex at h4
-      by_cases hle : (hexVal ds : Int) ≤ i64Max
-      · simp only [hle, if_true, PR.ok.injEq] at h4; obtain ⟨rfl, _⟩ := h4
-        exact ⟨by unfold i64Max; omega, hle⟩
-      · simp [hle] at h4
-    rcases alt_cons_ok h with h1 | ⟨_, h⟩
-    · obtain ⟨ds, r', _, h4⟩ := bind_ok (x := digit1 s) h1
-      unfold parseI64Dec at h4
-      by_cases hle : (decVal ds : Int) ≤ i64Max
-      · simp only [hle, if_true, PR.ok.injEq] at h4; obtain ⟨rfl, _⟩ := h4
-        exact ⟨by unfold i64Max; omega, hle⟩
-      · simp [hle] at h4
-    · simp [alt] at h
+/-- `unsigned` returns values in `0 ..= i64::MAX` … -/
+theorem unsigned_range {s v r} (h : IntConstant.unsigned s = .ok v r) : 0 ≤ v ∧ v ≤ i64Max := by
+  unfold IntConstant.unsigned at h
+  rcases alt_cons_ok h with h1 | ⟨_, h⟩
+  · obtain ⟨_, s1, _, h2⟩ := andThen_ok h1
+    obtain ⟨ds, r', _, h4⟩ := bind_ok (x := hexDigit1 s1) h2
+    unfold parseI64Hex at h4
+    by_cases hle : (hexVal ds : Int) ≤ i64Max
+    · simp only [hle, if_true, PR.ok.injEq] at h4; obtain ⟨rfl, _⟩ := h4
+      exact ⟨by omega, hle⟩
+    · simp [hle] at h4
+  rcases alt_cons_ok h with h1 | ⟨_, h⟩
+  · obtain ⟨ds, r', _, h4⟩ := bind_ok (x := digit1 s) h1
+    unfold parseI64Dec at h4
+    by_cases hle : (decVal ds : Int) ≤ i64Max
+    · simp only [hle, if_true, PR.ok.injEq] at h4; obtain ⟨rfl, _⟩ := h4
+      exact ⟨by omega, hle⟩
+    · simp [hle] at h4
+  · simp [alt] at h
 
-theorem good_intConstant : ∀ d, Good d (IntConstant.parse d)
-  | 0 => Good.fuelP
-  | d + 1 => by
-    have ih : Good d (pmapChecked negI64 (IntConstant.parse d)) :=
-      Good.pmapChecked _ (good_intConstant d) (by
-        intro s a r h
-        have hr := intConstant_range d s a r h
-        refine ⟨-a, ?_⟩
-        unfold negI64; split
-        · rename_i he; subst he; unfold i64Min i64Max at hr; omega
-        · rfl)
-    unfold IntConstant.parse
-    good_tac
-macro_rules | `(tactic| good_step) => `(tactic| with_reducible exact good_intConstant _)
+theorem good_unsigned {w : Nat} : Good w IntConstant.unsigned := by unfold IntConstant.unsigned; good_tac
 
-theorem good_exponent (d : Nat) : Good d (exponent d) := by
+/-- … so `IntConstant(-d.0)` cannot overflow: the panic branch of the negation is unreachable -/
+theorem good_intConstant {w : Nat} : Good w IntConstant.parse := by
+  have ih : Good w (pmapChecked negI64 IntConstant.unsigned) :=
+    Good.pmapChecked _ good_unsigned (by
+      intro s a r h
+      have hr := unsigned_range h
+      refine ⟨-a, ?_⟩
+      unfold negI64; split
+      · rename_i he; subst he; unfold i64Min at hr; omega
+      · rfl)
+  have hu := @good_unsigned w
+  unfold IntConstant.parse
+  good_tac
+macro_rules | `(tactic| good_step) => `(tactic| with_reducible exact good_intConstant)
+
+theorem good_exponent {w : Nat} : Good w exponent := by
   unfold exponent; good_tac
-macro_rules | `(tactic| good_step) => `(tactic| with_reducible exact good_exponent _)
+macro_rules | `(tactic| good_step) => `(tactic| with_reducible exact good_exponent)
 
-theorem good_doubleConstant (d : Nat) : Good d (DoubleConstant.parse d) := by
+theorem good_doubleConstant {w : Nat} : Good w DoubleConstant.parse := by
   unfold DoubleConstant.parse; good_tac
-macro_rules | `(tactic| good_step) => `(tactic| with_reducible exact good_doubleConstant _)
+macro_rules | `(tactic| good_step) => `(tactic| with_reducible exact good_doubleConstant)
 
 theorem good_constValue : ∀ d, Good d (ConstValue.parse d)
   | 0 => Good.fuelP
@@ -206,9 +196,9 @@ macro_rules | `(tactic| good_step) => `(tactic| with_reducible exact good_struct
 theorem good_struct (d : Nat) : Good d (Struct.parse d) := by unfold Struct.parse; good_tac
 theorem good_union (d : Nat) : Good d (Union.parse d) := by unfold Union.parse; good_tac
 theorem good_exception (d : Nat) : Good d (Exception.parse d) := by unfold Exception.parse; good_tac
-theorem good_enumValue (d : Nat) : Good d (EnumValue.parse d) := by unfold EnumValue.parse; good_tac
-macro_rules | `(tactic| good_step) => `(tactic| with_reducible exact good_enumValue _)
-theorem good_enum (d : Nat) : Good d (Enum.parse d) := by unfold Enum.parse; good_tac
+theorem good_enumValue {w : Nat} : Good w EnumValue.parse := by unfold EnumValue.parse; good_tac
+macro_rules | `(tactic| good_step) => `(tactic| with_reducible exact good_enumValue)
+theorem good_enum {w : Nat} : Good w Enum.parse := by unfold Enum.parse; good_tac
 theorem good_function (d : Nat) : Good d (Function.parse d) := by unfold Function.parse; good_tac
 macro_rules | `(tactic| good_step) => `(tactic| with_reducible exact good_function _)
 theorem good_service (d : Nat) : Good d (Service.parse d) := by unfold Service.parse; good_tac
@@ -232,7 +222,7 @@ theorem good_item (d : Nat) : Good d (Item.parse d) := by
   repeat' (first
     | exact Good.failP
     | exact Good.pmap _ good_include | exact Good.pmap _ good_cppInclude | exact Good.pmap _ good_namespace
-    | exact Good.pmap _ (good_typedef d) | exact Good.pmap _ (good_constant d) | exact Good.pmap _ (good_enum d)
+    | exact Good.pmap _ (good_typedef d) | exact Good.pmap _ (good_constant d) | exact Good.pmap _ good_enum
     | exact Good.pmap _ (good_struct d) | exact Good.pmap _ (good_union d) | exact Good.pmap _ (good_exception d)
     | exact Good.pmap _ (good_service d)
     | apply Good.ite)
@@ -262,8 +252,10 @@ theorem manyTillF_eof_rest {α} (p : P α) : ∀ n s x r, manyTillF p eof n s = 
         exact manyTillF_eof_rest p n r1 y r h3
 
 theorem file_parse_rest (s : List Char) (f : File) (r : List Char) (h : File.parse s = .ok f r) : r = [] := by
-  unfold File.parse File.parseD pmap at h
-  obtain ⟨y, h3, _⟩ := map_ok h
+  unfold File.parse File.parseD at h
+  obtain ⟨_, s1, _, h2⟩ := andThen_ok h
+  unfold pmap at h2
+  obtain ⟨y, h3, _⟩ := map_ok h2
   exact manyTillF_eof_rest _ _ _ _ _ h3
 
 /-- `File::parse`: the budget `input.length + 2` is never exhausted, no panic branch is taken. -/
